@@ -279,6 +279,10 @@ class PathEval:
                 i = o['pl']['p'][0]['i']
                 if i < len(base[2]):
                     return base[2][i]
+            if isinstance(base, tuple) and base[0] == 'tryint' and [x['k'] for x in o['pl']['p']] == ['downcast', 'field'] \
+                    and o['pl']['p'][1]['i'] == 0 and int_range(o['pl']['p'][1].get('ty') or '') == base[2]:
+                # the payload of Ok(_) of an integer try_from is the value itself
+                return base[1]
             ty = self.fn.locals[l] if not o['pl']['p'] else (o['pl']['p'][-1].get('ty') or _place_ty(self.fn, o['pl']))
             r = int_range(ty)
             if r:
@@ -416,6 +420,18 @@ class PathEval:
                 val = st.fresh_atom('min', min(l0, l1), min(h0, h1))
             else:
                 val = st.fresh_atom('max', max(l0, l1), max(h0, h1))
+        if val is None and last in ('try_from', 'try_into') and len(args) == 1 and isinstance(args[0], Lin) and ('TryFrom' in name or 'TryInto' in name):
+            # `T::try_from(x)`: Ok(x) exactly when x fits T.  The target type is the first type of `<T as TryFrom<U>>`
+            m_ = re.match(r'^<([iu](?:8|16|32|64|128|size)) as ', name)
+            r_ = int_range(m_.group(1)) if m_ else None
+            if r_:
+                val = ('tryint', args[0], r_)
+        if val is None and last in ('unwrap', 'expect') and args and isinstance(args[0], tuple) and args[0][0] == 'tryint':
+            # (panics otherwise: on the path that continues the value fits)
+            _, lin_, r_ = args[0]
+            self.assume(st, ('cmp', 'Ge', lin_, Lin(const=r_[0])), True)
+            self.assume(st, ('cmp', 'Le', lin_, Lin(const=r_[1])), True)
+            val = lin_
         if val is None and last in ('from', 'into') and len(args) == 1 and isinstance(args[0], Lin) and int_range(dty) and \
                 ('convert::From' in name or 'convert::Into' in name):
             # integer From/Into exists only between types where it is lossless; checked like a cast all the same
@@ -545,10 +561,20 @@ class PathEval:
                         alts = _split(v, False)
                     elif s == be[1] and s != be[0]:
                         alts = _split(v, True)
+                if isinstance(v, tuple) and v[0] == 'discr' and isinstance(v[1], tuple) and v[1][0] == 'tryint':
+                    # Ok (0) <=> the value fits; Err <=> below the range or above it
+                    _, lin_, r_ = v[1]
+                    vals = fn.edge_values(b).get(s, set())
+                    fits = [[(('cmp', 'Ge', lin_, Lin(const=r_[0])), True), (('cmp', 'Le', lin_, Lin(const=r_[1])), True)]]
+                    misses = [[(('cmp', 'Lt', lin_, Lin(const=r_[0])), True)], [(('cmp', 'Gt', lin_, Lin(const=r_[1])), True)]]
+                    alts = fits if vals == {0} else (misses if 0 not in vals else [[]])
                 for conj in alts:
                     st2 = st.copy()
                     try:
                         if be is not None and not (isinstance(v, tuple) and v[0] == 'discr'):
+                            for vi, ti in conj:
+                                self.assume(st2, vi, ti)
+                        elif isinstance(v, tuple) and v[0] == 'discr' and isinstance(v[1], tuple) and v[1][0] == 'tryint':
                             for vi, ti in conj:
                                 self.assume(st2, vi, ti)
                         else:
